@@ -86,7 +86,27 @@ def r4_1(ctx: Ctx, rule: str = "R4.1") -> RuleResult:
                    construct=f"encode chain {pairs}")
         else:
             rr.ok(fn.loc(call), f"{fn.qualname}: encode {pairs}")
-    if not encoders:
+    # an encoder written as one simultaneous character translation: `token.translate({ord("~"): "~0", ord("/"): "~1"})`
+    n_translate = 0
+    for fn in pointer_funcs(ctx):
+        for c in calls(fn.node, "translate"):
+            if len(c.args) != 1:
+                continue
+            try:
+                table = ctx.folder.eval_in(c.args[0], fn.module, fn.cls)
+            except NotConst:
+                continue
+            if not isinstance(table, dict):
+                continue
+            norm = {(chr(k) if isinstance(k, int) else k): v for k, v in table.items()}
+            if "~" in norm or "/" in norm:
+                n_translate += 1
+                if norm.get("~") == "~0" and norm.get("/") == "~1":
+                    rr.ok(fn.loc(c), f"{fn.qualname}: encode by simultaneous translation {norm}")
+                else:
+                    rr.bad(fn, c, f"the encoder must map `~` to `~0` and `/` to `~1`; the translation table is {norm}",
+                           construct=f"encode table {sorted(norm.items())}")
+    if not encoders and not n_translate:
         raise AnalysisError(f"{rule}: no reference-token encoder found in pointer.py")
     if not decoders:
         raise AnalysisError(f"{rule}: no reference-token decoder found in pointer.py")
